@@ -186,6 +186,36 @@ func pick(xs []string, i int) string {
 	return xs[i%len(xs)]
 }
 
+const victimContent = "not part of the workspace - must survive"
+
+// outsideDir: a directory next to the workspace root (never inside it) that belongs to this case.
+func outsideDir(pkgDir string) string {
+	d := pkgDir
+	for filepath.Base(d) != "ws" && d != "/" {
+		d = filepath.Dir(d)
+	}
+	return filepath.Join(filepath.Dir(d), "outside")
+}
+
+// victimsIntact: nothing outside the workspace was written through a link.
+func victimsIntact(pkgDir string) string {
+	outside := outsideDir(pkgDir)
+	if _, err := os.Stat(outside); err != nil {
+		return ""
+	}
+	for _, f := range []string{"victim.txt", "victim-dir/keep"} {
+		b, err := os.ReadFile(filepath.Join(outside, f))
+		if err != nil || string(b) != victimContent {
+			return fmt.Sprintf("%s outside the workspace was modified or removed (now %q, err %v)", f, b, err)
+		}
+	}
+	entries, _ := os.ReadDir(filepath.Join(outside, "victim-dir"))
+	if len(entries) != 1 {
+		return fmt.Sprintf("the directory outside the workspace now has %d entries", len(entries))
+	}
+	return ""
+}
+
 // applyPrior puts the destination into its prior state. Returns false when the
 // state does not apply to this output (then nothing was changed).
 func applyPrior(pkgDir string, o Out) (bool, error) {
@@ -260,6 +290,40 @@ func applyPrior(pkgDir string, o Out) (bool, error) {
 			}
 			return true, os.RemoveAll(filepath.Join(d, entries[o.PriorAt%len(entries)].Name()))
 		}
+	case "dir-where-file":
+		// the mirror image: a (non-empty) directory sits where the file output belongs
+		if o.Type != "file" {
+			return false, nil
+		}
+		if err := os.RemoveAll(abs); err != nil {
+			return false, err
+		}
+		if err := os.MkdirAll(filepath.Join(abs, "sub"), 0o755); err != nil {
+			return false, err
+		}
+		return true, os.WriteFile(filepath.Join(abs, "sub", "junk"), []byte("junk"), 0o644)
+	case "symlink-where-file", "symlink-where-dir", "dangling-symlink":
+		// somebody replaced the output by a link to something OUTSIDE the workspace; restoring the output must neither
+		// leave the link in place nor write through it
+		if (o.Prior == "symlink-where-file") != (o.Type == "file") && o.Prior != "dangling-symlink" {
+			return false, nil
+		}
+		outside := outsideDir(pkgDir)
+		if err := os.MkdirAll(filepath.Join(outside, "victim-dir"), 0o755); err != nil {
+			return false, err
+		}
+		_ = os.WriteFile(filepath.Join(outside, "victim.txt"), []byte(victimContent), 0o644)
+		_ = os.WriteFile(filepath.Join(outside, "victim-dir", "keep"), []byte(victimContent), 0o644)
+		if err := os.RemoveAll(abs); err != nil {
+			return false, err
+		}
+		switch o.Prior {
+		case "symlink-where-file":
+			return true, os.Symlink(filepath.Join(outside, "victim.txt"), abs)
+		case "symlink-where-dir":
+			return true, os.Symlink(filepath.Join(outside, "victim-dir"), abs)
+		}
+		return true, os.Symlink(filepath.Join(outside, "does-not-exist"), abs)
 	case "file-where-dir":
 		if o.Type != "dir" {
 			return false, nil
@@ -278,11 +342,14 @@ var tmpRoot string
 var registry *output.Registry
 var casesSinceWipe int
 
+var caseNo int
+
 func setup(algo string) (string, error) {
-	ws := filepath.Join(tmpRoot, "ws")
-	if err := os.RemoveAll(ws); err != nil {
-		return "", err
-	}
+	// a directory of its own per case: a LoadOutputs that fails returns while its other restore tasks are still running,
+	// and those must not write into the next case's workspace
+	_ = os.RemoveAll(filepath.Join(tmpRoot, fmt.Sprintf("case-%d", caseNo)))
+	caseNo++
+	ws := filepath.Join(tmpRoot, fmt.Sprintf("case-%d", caseNo), "ws")
 	config.Global = config.WorkspaceConfig{WorkspaceRoot: ws, Root: filepath.Join(tmpRoot, "root"), HashAlgorithm: algo, OS: "linux", Arch: "amd64", NumWorkers: 4}
 	if registry == nil || casesSinceWipe > 300 {
 		_ = os.RemoveAll(filepath.Join(tmpRoot, "root"))
@@ -368,6 +435,9 @@ func run(c Case) (pbt.Result, error) {
 		if d := diffListings(want[o.Path], got); d != "" {
 			return res, pbt.Fail("restore-differs:"+o.Type+":"+classify(d), "output %s (%s, prior state %s) differs after restore: %s", o.Path, o.Type, o.Prior, d)
 		}
+	}
+	if v := victimsIntact(pkgDir); v != "" {
+		return res, pbt.Fail("restore-wrote-outside-workspace", "restore followed a link that sat at an output path: %s", v)
 	}
 	res.NonTrivial = special && nonIdentical
 	return res, nil
@@ -455,8 +525,8 @@ func genTree(t *rapid.T, depth int) []Node {
 	return nodes
 }
 
-var filePriors = []string{"identical", "absent", "parent-absent", "modify", "truncate", "longer", "exec-flip"}
-var dirPriors = []string{"identical", "absent", "parent-absent", "modify", "truncate", "longer", "exec-flip", "stale-file", "stale-dir", "stale-nested", "stale-symlink", "remove-child", "file-where-dir"}
+var filePriors = []string{"identical", "absent", "parent-absent", "modify", "truncate", "longer", "exec-flip", "dir-where-file", "symlink-where-file", "dangling-symlink"}
+var dirPriors = []string{"identical", "absent", "parent-absent", "modify", "truncate", "longer", "exec-flip", "stale-file", "stale-dir", "stale-nested", "stale-symlink", "remove-child", "file-where-dir", "symlink-where-dir", "dangling-symlink"}
 
 func gen(t *rapid.T) Case {
 	c := Case{Pkg: rapid.SampledFrom([]string{"", "p", "p/q"}).Draw(t, "pkg"), Algo: rapid.SampledFrom([]string{"xxh3", "sha256"}).Draw(t, "algo")}
